@@ -169,6 +169,7 @@ class C20(Prop):
     id = "C20"
     title = "Immutable configuration: values change only through authorised, logged mutations"
     fixed_prefix = 1
+    extractors = ["py2lean-genome"]
     quick_budget = 2500
     thorough_budget = 30000
     quick_deadline_s = 100
@@ -194,13 +195,21 @@ class C20(Prop):
         "get_statistics (beyond approved_mutations, read by the oracle) are not modelled; validate, list_genes, diff, "
         "from_dict and export are in the model/correspondence but outside the property",
     ]
-    trusted_modelled = ["modelled, not verified: Genome.add_gene/mutate/rollback_mutation/set_expression/express/"
-                        "replicate/get_value as Operon.Genome.step over a store of genomes"]
+    trusted_modelled = ["modelled: Genome.add_gene/mutate/rollback_mutation/set_expression/express/replicate/get_value as "
+                        "Operon.Genome.step over a store of genomes; for add_gene, mutate, rollback_mutation, "
+                        "set_expression, silence_gene, activate_gene and the gate of replicate the model functions are "
+                        "proved EQUAL to the machine translation of the current source (Operon/Gen/GenomeTranslated.lean, "
+                        "regenerated on every run; theorems c20_translation_agrees_*)"]
 
     def setup(self, ctx):
         import_repo()
         from operon_ai.state import genome as m
         self.m = m
+
+    def extract(self, ctx):
+        from .. import core
+        from ..extract import py2lean_genome
+        return py2lean_genome.run(core.REPO, core.LEAN, core.write_if_changed)
 
     # --- generation ------------------------------------------------------------------------------------
     VALPOOL = [0, 1, 1, 2, 3, 5, 7, 100, 101, 102, 103, 104, 105]
